@@ -47,6 +47,8 @@ def showSent : Out → Option String
   | .sentGet k => some s!"get#{k}"
   | .sentResult id to => some s!"result={id}>{to}"
   | .sentError id => some s!"error={id}"
+  | .sentSet k it => some s!"set#{k}:{it.jid}|{it.name}|{showSub it.sub}|{";".intercalate (dedup (sortStr it.groups))}"
+  | .sentPresence t to => some s!"p:{t}>{to}"
   | _ => none
 
 def showView (e : Entries) : String :=
@@ -84,9 +86,23 @@ def parseOp (ws : List String) : Option Op :=
     let f ← unEq f; let st ← unEq st
     let t := if t = "available" then PType.available else if t = "unavailable" then PType.unavailable else PType.other
     pure (.presence f t st)
+  | "api" :: tr :: rest => do
+    let call ← (match rest with
+      | ["add", j, n, g] => do
+        let j ← unEq j; let n ← unEq n
+        pure (Api.addItem j n (if g = "-" then [] else g.splitOn ";"))
+      | ["rm", j] => (unEq j).map Api.removeItem
+      | ["ren", j, n] => do let j ← unEq j; let n ← unEq n; pure (Api.renameItem j n)
+      | ["sub", j] => (unEq j).map Api.subscribe
+      | ["unsub", j] => (unEq j).map Api.unsubscribe
+      | ["acc", j] => (unEq j).map Api.accept
+      | ["ref", j] => (unEq j).map Api.refuse
+      | _ => none)
+    pure (.api call (tr = "t"))
+  | ["setjid", j] => (unEq j).map Op.setJid
   | _ => none
 
-/-- driver state: own bare JID + model state -/
+/-- driver state: currently configured own bare JID + model state -/
 def stepLine (st : String × St) (line : String) : (String × St) × String :=
   -- split on single spaces WITHOUT dropping empty words: tokens never are empty (`=` prefix), but be strict
   let l := if line.endsWith "\n" then (line.dropEnd 1).toString else line
@@ -95,7 +111,7 @@ def stepLine (st : String × St) (line : String) : (String × St) × String :=
   | ["reset", own] => ((own, init), "ok")
   | _ =>
     match parseOp ws with
-    | some op => let r := step st.1 st.2 op; ((st.1, r.1), obs r.1 r.2)
+    | some op => let r := step st.1 st.2 op; ((nextOwn st.1 op, r.1), obs r.1 r.2)
     | none => (st, "bad-op")
 
 def main : IO Unit := run ("", init) stepLine
